@@ -57,6 +57,15 @@ CLAIMED = {
             'each file the reference model says is open must return its own data.',
             'automatic GC disabled, gc is an explicit event; numpy lazily casts fill values (compared after casting '
             'to the variable dtype); IOAPI wall-clock stamps excluded', 'DESIGN.md section 4 C05'),
+    'C10': ('B', 'model_checking',
+            'explicit-state breadth-first search over IOAPI operation sequences with the coherence invariant evaluated in every state',
+            'BFS from 7 IOAPI seeds (gridded, 1x1x1x1, boundary, masked, disk-backed, GRIDDESC with and without CF '
+            'variables) under a ~45-instance menu (copy, slice int/slice/list on every standard dimension, subset, '
+            'subset-exclude, renameVariable, eval, apply mean/max/diff on every standard dimension, mask, stack in '
+            'time, interpSigma linear/conserve, +) to depth 2 (quick) / 4 (thorough); every reached state must '
+            'satisfy all coherence clauses of the statement and every in-domain instance must complete.',
+            'clauses are exactly the statement; operations leaving the IOAPI data model are out of domain and not '
+            'explored (DESIGN section 7)', 'DESIGN.md section 4 C10'),
 }
 
 PENDING_REASON = ('check not built yet in this session; planned per DESIGN.md section 4 '
